@@ -145,6 +145,8 @@ type Style struct {
 	EncodingP  int  `json:"encodingP,omitempty"`  // redirect: 0 no SAMLEncoding param, 1 explicit DEFLATE URI
 	BodyAndURL bool `json:"bodyAndURL,omitempty"` // POST with extra unrelated query parameters on the URL
 	Chunked    bool `json:"chunked,omitempty"`    // the body is sent with Transfer-Encoding: chunked (ContentLength unknown)
+	TextForm   int  `json:"textForm,omitempty"`   // lexical form of Issuer / NameID text: 0 plain, 1 CDATA section, 2 numeric character references, 3 split by a comment, 4 CDATA + plain
+	B64Lines   int  `json:"b64Lines,omitempty"`   // POST SAMLRequest base64 with line breaks (RFC 2045 layout): 0 none, 1 CRLF every 76, 2 LF every 64
 }
 
 // Tamper is one in-flight manipulation by the network attacker, or one
